@@ -98,6 +98,17 @@ func c06String(r *Run, s []byte) {
 	}
 	r.count("string/accepted")
 	r.eval("s|"+string(s), true)
+	// the parse-level K3 guard, answered by both sides for every accepted text whose reading validates
+	k3hit, k3joins, k3ok := c06ParseJoins(s)
+	if k3ok {
+		r.op("k3.parse " + encBytes(s))
+		c06ParsedJoins(r, line, k3joins)
+		if k3hit {
+			r.count("string/k3.parse=1")
+		}
+	} else {
+		r.count("string/k3.parse-unvalidated")
+	}
 	defer func() {
 		if rec := recover(); rec != nil {
 			r.fail(Failure{Oracle: "printing / re-parsing an accepted location never panics", Op: line, Got: fmt.Sprint(rec)})
@@ -112,10 +123,11 @@ func c06String(r *Run, s []byte) {
 	}
 	if p2 := l2.String(); p2 != p1 {
 		f := Failure{Oracle: "print is a fixed point of parse-then-print", Op: line, Got: p1 + " -> " + p2}
-		// NOTE (audit S7): the excuse is the shape of the RESULT (an adjacent reducible pair is left in a
-		// Joined), which is close to the negation of the test; an evaluation-level guard on the PARSED
-		// parts (op k3.parse) is not built yet — see checks/C06.json assumptions
-		if isK3(l) {
+		// audit S7: the excuse is no longer the shape of the RESULT (isK3, close to the negation of the
+		// test) but the evaluation-level guard on the PARSED PARTS (op k3.parse, props_c06_parsek3.go /
+		// Gts/Spec/ParseK3.lean): some join( of the text meets the K3 shape while Join pushes its parts.
+		// A failure on a text whose guard is false, or whose reading did not validate, is a VIOLATION.
+		if k3ok && k3hit {
 			f.Finding = "K3"
 		}
 		r.fail(f)
@@ -238,6 +250,7 @@ func propC06(r *Run) {
 	}
 	c06ClosureScope(r)
 	c06EmptySpanScope(r)
+	c06InvertedScope(r)
 	// all strings up to a length over the location alphabet
 	maxLen := 4
 	if r.tier == "thorough" {
